@@ -12,16 +12,16 @@ CLAIMED = {
          "DESIGN.md §6 C01, §4.1"),
  "C02": ("exploration",
          "model-based property testing of call histories: API-built rules with generated attribute combinations and histories of execute/focus/pop/clear/reset/enable/flag steps, judged against a model interpreter of the eligibility gate (exact trace); exhaustive small-scope enumeration of attribute assignments for 3 rules",
-         "Every execute of every generated history must produce exactly the firing trace, fired count and active agenda group of the model written from the statement (salience order with insertion order among ties, enabled/date/focus gates, no-loop until reset, one rule per activation group per pass, lock-on-active once per activation). Large rule sets (21-60) expose unstable sorting. Shapes the statement leaves open (pop/clear returning to a locked group, a lock-on-active rule re-activating its own group) are not judged.",
+         "Every execute of every generated history must produce exactly the firing trace, fired count and active agenda group of the model written from the statement (salience order with insertion order among ties, enabled/date/focus gates, no-loop until reset, one rule per activation group per pass, lock-on-active once per activation). Large rule sets (21-60) expose unstable sorting. Part timeout lets a 10 ms wall-clock timeout really elapse inside a pass (a sleeping action) and judges the next call on the same engine by a timing-independent clause (a no-loop rule that ran does not run again). Shapes the statement leaves open (pop/clear returning to a locked group, a lock-on-active rule re-activating its own group) are not judged.",
          "Trusts the model in harness/src/c02.rs; date boundaries excluded by construction; rules_evaluated not compared. The public activate_agenda_group call is part of the history alphabet (a history is cut where its interleaving with other focus operations is unspecified).",
          "DESIGN.md §6 C02"),
  "C03": ("exploration",
          "differential property testing of looping rule sets (generated counters, always-true rules, toggles, chains) against a multi-pass REF interpreter with no-loop, plus fixpoint re-evaluation and a termination watchdog",
-         "For every generated program and every max_cycles in 0..=64: the call returns (120 s watchdog in a monitor process), cycle_count <= max_cycles, rules_fired = callbacks, the pass count / firing sequence / final facts equal REF's, and when the engine stops early no eligible rule is true on its own final facts. Both execute_with_callback and execute are driven; directly built rules may have an empty action list (a firing without actions still counts and keeps the loop going); part reuse makes 2-3 calls on one engine (activation groups, failing actions) and judges the per-call clauses.",
+         "For every generated program and every max_cycles in 0..=64: the call returns (120 s watchdog in a monitor process), cycle_count <= max_cycles, rules_fired = callbacks, the pass count / firing sequence / final facts equal REF's, and when the engine stops early no eligible rule is true on its own final facts. Both execute_with_callback and execute are driven; directly built rules may have an empty action list (a firing without actions still counts and keeps the loop going); part reuse makes 2-3 calls on one engine (activation groups, failing actions, the knowledge base replaced through knowledge_base_mut() by an equally-versioned object with one more rule) and judges the per-call clauses.",
          "Trusts REF; termination means 'returns within the 120 s watchdog'; wall-clock timeout disabled as the quantifier says.",
          "DESIGN.md §6 C03"),
  "C20": ("fault_enumeration",
-         "model-based property testing of checkpoint/restore histories under an injected clock (random + exhaustive short histories) and fault enumeration: every truncation length of the checkpoint file and every intermediate directory state of an interrupted checkpoint is materialised and restored from, cross-checked by real RLIMIT_FSIZE crashes in a child process",
+         "model-based property testing of checkpoint/restore histories under an injected clock (random + exhaustive short histories) and fault enumeration: every truncation length of the checkpoint file and every intermediate directory state of an interrupted checkpoint is materialised and restored from, cross-checked by real RLIMIT_FSIZE crashes in a child process (also with a full history, max_checkpoints = 1)",
          "Restore must reproduce the recording taken at checkpoint time (bit-exact floats), ids of listed checkpoints are distinct and every listed id restores; in every enumerated crash state of a checkpoint write, earlier checkpoints restore exactly and the interrupted one restores completely or fails leaving the live state unchanged.",
          "Crash enumeration assumes the write sequence create_dir_all -> File::create -> write_all -> retention (cross-checked by real size-limited crashes); no fsync/power-loss reordering modelled.",
          "DESIGN.md §6 C20, §8"),
@@ -32,7 +32,7 @@ CLAIMED = {
          "DESIGN.md §6 C18"),
  "C19": ("exploration",
          "differential property testing under perturbed schedules: generated rule sets x thread configurations, each executed repeatedly with a yield/spin/sleep hook at schedule points inside the worker loop, compared with the sequential path of the same engine, with REF, and (for rules whose registered functions write facts read at lower salience) with a level-by-level model",
-         "For every generated configuration and every repetition: the call returns, there is exactly one execution context per enabled rule, the (rule, fired) map and both counters equal the sequential path, and the sequential verdicts equal REF where defined. Schedules are sampled (OS + hook), not enumerated: a sound oracle with stress-level schedule coverage.",
+         "For every generated configuration and every repetition (and for two threads calling the same engine at once): the call returns, there is exactly one execution context per enabled rule, the (rule, fired) map and both counters equal the sequential path, and the sequential verdicts equal REF where defined. Schedules are sampled (OS + hook), not enumerated: a sound oracle with stress-level schedule coverage.",
          "Real threads; schedule coverage is whatever the OS and the H5 hook produce. Fact-writing actions only through registered functions whose readers sit at a strictly lower salience (part writers), so the one-by-one result is order-independent inside a level.",
          "DESIGN.md §6 C19, §8"),
  "C04": ("exploration",
@@ -46,28 +46,28 @@ CLAIMED = {
          "Termination = returns within the 120 s watchdog (wall clock, as the quantifier says; slowest case seen under the F10 bound: 3.3 s). Stack depth is a property of the build: the default harness build has the engine at opt-level 2, the thorough command adds the opt-level-0 build.",
          "DESIGN.md §6 C05, §10.5"),
  "C06": ("exploration",
-         "stateful property testing of the incremental RETE engine: generated single-type rule sets converted by the real GRL loader with recorder-wrapped actions, histories of insert/update/retract/fire_all/reset/set_conflict_resolution_strategy, judged by REF on the matched fact's contents at firing time, a completeness oracle for every fire_all of the all-noop sub-domain, and a 4-view working-memory invariant; exhaustive short histories",
+         "stateful property testing of the incremental RETE engine: generated single-type rule sets converted by the real GRL loader with recorder-wrapped actions, histories of insert/update/retract/fire_all/reset/set_conflict_resolution_strategy and bursts of 1001 identical updates, judged by REF on the matched fact's contents at firing time, a completeness oracle for every fire_all of the all-noop sub-domain, and a 4-view working-memory invariant; exhaustive short histories",
          "Every firing in every generated history is checked at the moment it happens: the matched handle (exposed by a hook) is live and REF says the rule's condition is true of exactly the contents the engine presents; when actions are no-ops and rules no-loop, every fire_all fires each armed rule that a newly written live fact satisfies, and nothing that no live fact satisfies; updates may change only the type of a value (type twins), and where REF is undefined a fresh engine holding only that rule is asked whether it fires for the same contents; all working-memory views agree after every operation and retracted handles are rejected. Bounded by <= 6 facts, <= 3 types, <= 4 rules, histories <= 15.",
          "Trusts REF on a well-typed sub-core (multi-type joins, multi-operator arithmetic excluded); facts may lack a field: a firing is flagged only if the condition is false under both readings of an absent field (null / atom false), demanded only if true under both; cross-type activations are not judged.",
          "DESIGN.md §6 C06"),
  "C07": ("exploration",
          "model-based property testing of the RETE agenda (validity predicate on every pop over generated add/pop/mark/focus/reset sequences, exhaustive to length 5-6) and termination testing of the three fire_all entry points with fuel-counting actions under a watchdog",
-         "Every activation returned by get_next_activation must be pending, in the focused group (the focus may only fall back to a group that was left through set_focus since the last clear), not excluded by no-loop / fired activation group, and maximal by (salience, earlier created_at) among the definitely eligible ones; fire_all of IncrementalEngine, TypedReteUlEngine and ReteUlEngine must return within its iteration bound for generated always-true and self-re-enabling rule sets.",
+         "Every activation returned by get_next_activation must be pending, in the focused group (the focus may only fall back to a group that was left through set_focus since the last clear), not excluded by no-loop / fired activation group, and maximal by (salience, earlier created_at) among the definitely eligible ones (creation instants from 1 us to 0.7 s apart); fire_all of IncrementalEngine, TypedReteUlEngine and ReteUlEngine must return within its iteration bound for generated always-true and self-re-enabling rule sets.",
          "created_at is set through the public field for determinism; lock-on-active/auto-focus/ruleflow not exercised; order of the two non-incremental engines not judged.",
          "DESIGN.md §6 C07"),
  "C08": ("exploration",
          "model-based property testing of truth maintenance: generated and exhaustively enumerated histories of explicit/logical insertions, extra justifications and retractions against a least-fixpoint support model, compared for every handle after every operation",
-         "After every operation of every history, presence in working memory of every handle ever issued equals the model's least-fixpoint support verdict; the set returned by retract_with_cascade equals the model's removed set; TMS flags agree. Exhaustive to 8-10 operations on small fact counts (millions of histories per quick run). Some plain facts bypass the TMS (working_memory_mut().insert / never registered): present, legal premises, their retraction cascades.",
+         "After every operation of every history, presence in working memory of every handle ever issued equals the model's least-fixpoint support verdict; the set returned by retract_with_cascade equals the model's removed set; TMS flags agree. Exhaustive to 8-10 operations on small fact counts (millions of histories per quick run). Premise lists may repeat a handle. Some plain facts bypass the TMS (working_memory_mut().insert / never registered): present, legal premises, their retraction cascades.",
          "Acyclic support only (premises are live and older than the fact, as the quantifier says); no rules loaded.",
          "DESIGN.md §6 C08"),
  "C09": ("exploration",
          "property-based testing of backward chaining over generated Horn knowledge bases: soundness judged by REF on the returned facts and by an over-approximated forward closure (possible-values fixpoint), bounded completeness judged by a derivation-height reference on monotone KBs",
-         "For every generated (KB, store, goal, config): a provable answer implies the goal comparison is true in the facts handed back and satisfiable in the forward closure; under DFS on monotone conjunctive KBs a goal with derivation height <= max_depth must be provable. All three strategies, max_depth 0..6, max_solutions 1 and 3.",
+         "For every generated (KB, store, goal, config): a provable answer implies the goal comparison is true in the facts handed back and satisfiable in the forward closure; under DFS on monotone conjunctive KBs a goal with derivation height <= max_depth must be provable; part ladder demands the same of single-path derivations in which a step tests a field and assigns the next value to the same field. All three strategies, max_depth 0..6, max_solutions 1 and 3.",
          "Trusts REF and the 40-line closure/height computations in harness/src/bc.rs; engine panics/errors are counted, not judged; numeric equality goals not generated.",
          "DESIGN.md §6 C09"),
  "C10": ("exploration",
          "differential (before/after) property testing of failed backward-chaining proofs, and model-based testing of the undo-frame API against a snapshot-stack model with exhaustive enumeration of all operation sequences of length 5-6",
-         "Whenever a generated query is reported not provable the caller's facts are deeply equal to what they were (rules may carry an action that fails at run time; one case in four is asked inside a caller-owned undo frame, which must still be the caller's afterwards); every sequence of begin/commit/rollback/set/set_nested/remove (exhaustive to length 5 in quick, 6 in thorough, random to 10) leaves get_all_facts(), snapshot() and the open-frame count equal to the snapshot-stack model after every operation.",
+         "Whenever a generated query is reported not provable the caller's facts are deeply equal to what they were (rules may carry an action that fails at run time or be disabled; one case in four is asked inside a caller-owned undo frame, which must still be the caller's afterwards); every sequence of begin/commit/rollback/set/set_nested/remove (exhaustive to length 5 in quick, 6 in thorough, random to 10) leaves get_all_facts(), snapshot() and the open-frame count equal to the snapshot-stack model after every operation.",
          "Open-frame count read through hook verif_undo_depth; engine panics/errors during a query are counted, not judged.",
          "DESIGN.md §6 C10"),
  "C11": ("exploration",
@@ -77,7 +77,7 @@ CLAIMED = {
          "DESIGN.md §6 C11"),
  "C12": ("exploration",
          "model-based property testing of windows under an injected clock: generated event sequences in all arrival orders (exhaustive over all orders of 5-6 events) against interval arithmetic, a retention validity predicate and harness-side aggregate folds",
-         "Tumbling placement (WindowedStream, WindowManager, TimeWindow, StreamAlphaNode), sliding retention after every record (nothing older than the span, nothing younger dropped except oldest-first by the cap, either notion of oldest accepted) and count/sum/average/min/max against a fold over exactly the window's events. Tumbling durations with a sub-millisecond rest are judged by what every reading shares (disjoint windows, every held event inside its window, held once, none lost).",
+         "Tumbling placement (WindowedStream, WindowManager, TimeWindow, StreamAlphaNode), sliding retention after every record (nothing older than the span, nothing younger dropped except oldest-first by the cap, either notion of oldest accepted) and count/sum/average/min/max against a fold over exactly the window's events (payloads include infinities of one sign). Tumbling durations with a sub-millisecond rest are judged by what every reading shares (disjoint windows, every held event inside its window, held once, none lost).",
          "StreamAlphaNode judged relative to the injected clock (hook); NaN payloads and durations < 1 ms outside the domain; buffer order not judged; how a duration with a sub-millisecond rest is laid on whole-millisecond timestamps is not judged.",
          "DESIGN.md §6 C12"),
  "C14": ("exploration",
@@ -97,12 +97,12 @@ CLAIMED = {
          "DESIGN.md §6 C16"),
  "C17": ("exploration",
          "model-based property testing of the proof graph: exhaustive enumeration (up to handle renaming) and random generation of insert_proof/invalidate_handle/is_proven histories in every insertion order against a justification-graph fixpoint model",
-         "After every operation get_node().valid, is_proven and lookup_by_key equal 'not invalidated and at least one surviving justification' for every handle; exhaustive to 6 operations on 3 handles and 5 on 4 handles in quick (3.4M histories), deeper in thorough. One history in three files some insertions of a handle under a second key (judged where every reading agrees).",
+         "After every operation get_node().valid, is_proven and lookup_by_key equal 'not invalidated and at least one surviving justification' for every handle; exhaustive to 6 operations on 3 handles and 5 on 4 handles in quick (3.4M histories), deeper in thorough. Handle ids come in six styles (small, equal low 32 / low 16 / high 32 bits, near u64::MAX, top bit set). One history in three files some insertions of a handle under a second key (judged where every reading agrees).",
          "A handle that was ever invalid is not reused as a premise (stricter reading of the quantifier).",
          "DESIGN.md §6 C17"),
  "C13": ("exploration",
          "model-based property testing (proptest-driven byte strings decoded into timestamp sequences + exhaustive small-scope enumeration) against an executable watermark/late-data model",
-         "Every prefix of every generated sequence is compared with a model written from the statement (watermark value and monotonicity, accepted/side-output/dropped routing, statistics, conservation); delays and latenesses cover the whole millisecond range and one case in three carries a sub-millisecond rest, which must change nothing observable. Random search over lengths up to 12 plus complete enumeration of short sequences over a 6-value domain for 20 configurations; part components drives WatermarkGenerator and LateDataHandler directly (with side-output drains) against the same model; bounded by those sizes, no claim beyond them.",
+         "Every prefix of every generated sequence is compared with a model written from the statement (watermark value and monotonicity, accepted/side-output/dropped routing, statistics, conservation); delays and latenesses cover the whole millisecond range and one case in three carries a sub-millisecond rest, which must change nothing observable; event ids and non-zero sequence numbers may recur. Random search over lengths up to 12 plus complete enumeration of short sequences over a 6-value domain for 20 configurations; part components drives WatermarkGenerator and LateDataHandler directly (with side-output drains) against the same model; bounded by those sizes, no claim beyond them.",
          "Trusts the harness model (60 lines, written from the statement); the Periodic strategy is driven with real sleeps and judged against the watermark observed through the API just before each call; Custom (no-op) is outside the statement.",
          "DESIGN.md §6 C13"),
 }
